@@ -66,6 +66,8 @@ def sanitize_variable_names(
             else:
                 next(expr_parts)
                 new_name = sanitize_variable_name(variable_name, env, template=template)
+                while aliases.get(new_name, variable_name) != variable_name:
+                    new_name += "_"
                 aliases[new_name] = variable_name
                 sanitized_expr.append(f" {new_name} ")
         else:
@@ -88,7 +90,7 @@ def sanitize_variable_name(
         template: A template to use for sanitized names, which is mainly useful
             if you need to undo the sanitization by string replacement.
     """
-    if name.isidentifier() or keyword.iskeyword(name):
+    if template == "{}" and (name.isidentifier() or keyword.iskeyword(name)):
         return name
 
     # Compute recognisable basename
